@@ -55,6 +55,10 @@ def main():
         sys.exit(2)
     missing = suite(wt)
     d1 = sh(f"/venv/bin/python {demo}", cwd=wt, env=env, timeout=900)
+    for _retry in range(3):
+        if d1.returncode != 134:        # SIGABRT at interpreter shutdown (pyarrow worker threads): not a verdict of the demo, re-run
+            break
+        d1 = sh(f"/venv/bin/python {demo}", cwd=wt, env=env, timeout=900)
     sh("git checkout -- .", cwd=wt)
     d0 = sh(f"/venv/bin/python {demo}", cwd=wt, env=env, timeout=900)
     meta["ran"].append(f"suite with patch: {len(missing)} of 143 stable tests missing {missing[:3]}")
